@@ -113,6 +113,13 @@ func registerVerifExternals(sh *Shared) {
 		e := fr.i.ex
 		return e.mkval(e.pool.Or(e.pool.Not(fr.i.boolTerm(args[0])), fr.i.boolTerm(args[1])), types.Bool)
 	})
+	// symKey(x) is the text the fmt stub prints for x (decimal when x is concrete)
+	reg(mainPath+".symKey", func(fr *frame, args []value) value {
+		if s, ok := args[0].(sym); ok {
+			return symKeyOf(s)
+		}
+		return fmt.Sprint(args[0])
+	})
 	reg(mainPath+".thorough", func(fr *frame, args []value) value { return sh.Thorough })
 	reg(mainPath+".symbolic", func(fr *frame, args []value) value { return true })
 	reg(mainPath+".observe", func(fr *frame, args []value) value {
@@ -911,7 +918,7 @@ func (i *interpreter) toNative(fr *frame, t types.Type, v value, depth int) inte
 		return nil
 	}
 	if s, ok := v.(sym); ok {
-		return nativeStringer{fmt.Sprintf("‹sym %s›", kindName(s.k))}
+		return nativeSym(symKeyOf(s))
 	}
 	// methods first
 	if depth < 3 {
@@ -1194,3 +1201,10 @@ func callMethodReal(fr *frame, typ, method string, args []value) value {
 	defer i.unbypassExt(fn.String())
 	return callSSA(i, fr.caller, fr.callpos, fn, args, nil)
 }
+
+func symKeyOf(s sym) string { return fmt.Sprintf("‹sym:%s:t%d›", kindName(s.k), s.t.id) }
+
+// nativeSym prints its key for every fmt verb.
+type nativeSym string
+
+func (n nativeSym) Format(f fmt.State, verb rune) { fmt.Fprint(f, string(n)) }
